@@ -397,6 +397,18 @@ def sample(ctx, budget=1.0, hint=None, broken=None):
             t0, t1 = sorted([r.choice([0.0, r.uniform(0, 1)]), r.choice([1.0, r.uniform(0, 1)])])
             if shape == 'loop' and r.random() < 0.6:
                 t0, t1 = 0.0, 1.0
+            if shape in ('foldback', 'repeated', 'collinear') and kind in ('quad', 'cubic') and r.random() < 0.4:
+                # a NARROW interval placed (off-centre) around the parameter where the speed is smallest: for a fold-back that is the
+                # turning point, where the chord of the interval says nothing about its length
+                try:
+                    g_ = np.linspace(0, 1, 2049)
+                    tstar = float(g_[int(np.argmin([abs(seg.derivative(x_)) for x_ in g_]))])
+                    w_ = r.choice([1 / 40, 1 / 100, 1 / 400, 1 / 2000, 1 / 10000])
+                    t0 = min(max(tstar - w_ * r.uniform(0.1, 0.9), 0.0), 1.0 - w_)
+                    t1 = t0 + w_
+                    shape = shape + '/narrow'
+                except Exception:
+                    pass
             rep = 'svgpathtools.%r' % (seg,)
             tag = '%s scipy=%s' % (kind, mode)
             pre = None
